@@ -533,6 +533,22 @@ func directedC07(c *ctx) {
 			i++
 		}
 	}
+	// relative references with a colon after the path (fragment, query), percent-escapes, dots, and
+	// the other spellings a conforming page may use, under the shipped UGC policy and under a
+	// hand-built one with relative URLs allowed
+	{
+		rels := []string{"#fn:1", "notes.html#sec:2", "chart.png#xywh=percent:5,5,90,90", "p?t=1:2", "a#b:c/d", "?x=a:b", "./a:b", "../up/x.html", "x/y;z=1", "a%3Ab", "#", "?", "p#", "//host.example/p?q#f:1",
+			"/abs/path#t=1:30", "img.png?w=1&h=2", "page.html#top"}
+		upid, upol := c.shipped("@UGC")
+		ops := []*bmx.Op{{Kind: "AE", Names: []string{"a", "img", "q", "b"}}, {Kind: "AA", Names: []string{"href", "src", "cite"}, Scope: "G"}, {Kind: "US", Names: []string{"https"}}, {Kind: "RU", Flag: true}}
+		pid, pol := c.policy(ops)
+		for _, u := range rels {
+			for _, d := range []string{"<a href=\"%s\" rel=\"nofollow\">t</a>", "<img src=\"%s\">", "<q cite=\"%s\">q</q>"} {
+				c.san(upid, upol, []byte(fmt.Sprintf(d, u)))
+				c.san(pid, pol, []byte(fmt.Sprintf(strings.Replace(d, " rel=\"nofollow\"", "", 1), u)))
+			}
+		}
+	}
 	// one attribute covered by an element rule and a global rule with different patterns
 	for v := 0; v < 8; v++ {
 		ops := []*bmx.Op{
